@@ -51,6 +51,7 @@ fn layout_family(fam: u64, n: usize, rng: &mut Rng, max_files: usize) -> Layout 
     Layout {
         files,
         xor_key: None,
+        magic_mode: 0,
         extra_files: vec![],
     }
 }
